@@ -588,6 +588,11 @@ above stays the HEAD function: with the flag off the list is always empty and `E
 structure Variant where
   /-- `false` = the code at HEAD -/
   selectWaitsForAnswer : Bool := false
+  /-- notes/C06-fixes/01 (`release_dead_roots`): a NON-persistent process that finishes or fails gives up its
+      mailbox, select state (with `unanswered`), `awaiting` and `awaiting_failed` at the end of the executor step
+      (after the same-executor awaiters were notified); `notify_message` drops a message for a process that is
+      unknown, has failed, or has finished and is not persistent. `false` = the code without the repair. -/
+  releaseDead : Bool := false
   deriving DecidableEq, Repr
 
 structure ExecW (V : Type) where
@@ -654,6 +659,36 @@ def ExecW.selectPure {V} (v : Variant) (w : ExecW V) (pid now : Nat) (stackSourc
       if (w.un pid).isEmpty then
         ({ w with ex := (w.ex.selectPure pid now stackSources).1 }, (w.ex.selectPure pid now stackSources).2)
       else ({ w with ex := w.ex.markSelecting pid }, some .parked)
+
+/-! ### Variant `releaseDead` (notes/C06-fixes/01) -/
+
+/-- what `release_dead_roots` leaves of a non-persistent process record: the result, nothing else -/
+def Proc.releaseDead {V} (p : Proc V) : Proc V :=
+  { p with mailbox := [], awaiting := [], awaitingFailed := [], sel := none }
+
+/-- `deliverable` of `notify_message` under the variant: the process exists and can still receive -/
+def Proc.deliverable {V} (p : Proc V) (persistent : Bool) : Bool :=
+  match p.result with
+  | none => true
+  | some (.ok _) => persistent
+  | some (.err _) => false
+
+/-- `release_dead_roots(pid)` at the end of the finished block of `Executor::step` (non-persistent process) -/
+def Exec.releaseDead {V} (ex : Exec V) (pid : Nat) : Exec V :=
+  match ex.getProc pid with
+  | some p => ex.setProc pid p.releaseDead
+  | none => ex
+
+/-- `notify_message` under the variant: a message that can never be received is dropped (the wake-up stays) -/
+def Exec.notifyMessageV {V} (v : Variant) (persistent : Nat → Bool) (ex : Exec V) (pid : Nat) (m : V) : Exec V :=
+  if v.releaseDead then
+    match ex.getProc pid with
+    | some p => if p.deliverable (persistent pid) then ex.notifyMessage pid m else ex.wake pid
+    | none => ex.wake pid
+  else ex.notifyMessage pid m
+
+def ExecW.releaseDead {V} (w : ExecW V) (pid : Nat) : ExecW V :=
+  { ex := w.ex.releaseDead pid, unanswered := amInsert pid [] w.unanswered }
 
 /-! ### "Ready" at system level
 
